@@ -181,6 +181,17 @@ pub fn run(tier: Tier, seed: u64) -> i32 {
             }
         }
     }
+    // far beyond the enumerated scope: 70 declarations
+    {
+        let mut body: Vec<Stmt> = (0..70).map(|j| Stmt::Declare(format!("D{j}"), bin(BinOp::Add, bin(BinOp::Mul, name("Q"), lit(j)), if j % 2 == 0 { name("R") } else { lit(1) }))).collect();
+        body.push(Stmt::Row(vec![Entry::Lit(1, Radix::Dec), Entry::X, Entry::Lit(3, Radix::Dec)]));
+        body.push(Stmt::Row(vec![Entry::Lit(2, Radix::Dec), Entry::Lit(1, Radix::Dec), Entry::X]));
+        let prog = Program { header: vec!["A".into(), "Q".into(), "D69".into()], body };
+        let small: Vec<MenuItem> = menu.iter().step_by(3).cloned().collect();
+        let mut c = Case::new("seventy declarations", prog, sigs.clone(), true, small.clone(), small, 6);
+        c.continue_after_call_errors = true;
+        cases.push(c);
+    }
     // thorough: the same cases, cut at depth 3, re-explored without merging
     let slice: Vec<Case> = if tier == Tier::Thorough {
         cases
